@@ -237,7 +237,9 @@ pub struct RunResult {
 
 /// one run of the scenario's script: returns the request line for the model and the
 /// implementation's answer in the same canonical form
-pub fn run_once(exe: &Path, root: &Path, outdir: &Path, script: &[SOp], k: usize) -> RunResult {
+/// `spell` selects how each path is spelled when it is handed to the API (a build script spells its paths
+/// the same way on every run, so it is constant within a scenario, and the same for twins)
+pub fn run_once(exe: &Path, root: &Path, outdir: &Path, script: &[SOp], k: usize, spell: usize) -> RunResult {
     let indir = root.join("in");
     let before = snapshot(outdir);
     let before_times = mtimes(outdir);
@@ -265,11 +267,26 @@ pub fn run_once(exe: &Path, root: &Path, outdir: &Path, script: &[SOp], k: usize
     };
     for (i, op) in script.iter().enumerate() {
         // alternate between relative (resolved through CARGO_MANIFEST_DIR) and absolute paths
+        // the string handed to the API: absolute, relative (resolved by ructe through CARGO_MANIFEST_DIR), or
+        // relative in another spelling (`./x`)
         let pass = |rel: &str| -> String {
-            if (i + k) % 2 == 0 || rel.starts_with('/') {
-                abs(rel)
-            } else {
+            if rel.starts_with('/') {
                 rel.to_string()
+            } else {
+                match (i + spell) % 3 {
+                    0 => abs(rel),
+                    1 => rel.to_string(),
+                    _ => format!("./{rel}"),
+                }
+            }
+        };
+        // directories may be written with a trailing separator
+        let pass_dir = |rel: &str| -> String {
+            let p = pass(rel);
+            if (i + 2 * spell) % 5 == 3 && !p.ends_with('/') {
+                format!("{p}/")
+            } else {
+                p
             }
         };
         match op {
@@ -289,7 +306,7 @@ pub fn run_once(exe: &Path, root: &Path, outdir: &Path, script: &[SOp], k: usize
                     inputs.push((a.clone(), false));
                 }
                 let c = std::fs::read(&a).map(|c| hex(&c)).unwrap_or_else(|_| "!".to_string());
-                ops_model.push(format!("F:{}:{}", hex(a.as_bytes()), c));
+                ops_model.push(format!("F:{}:{}", hex(pass(p).as_bytes()), c));
                 child_ops.push(format!("F {}", hex(pass(p).as_bytes())));
                 alltext.push_str(&a);
             }
@@ -297,15 +314,15 @@ pub fn run_once(exe: &Path, root: &Path, outdir: &Path, script: &[SOp], k: usize
                 let a = abs(d);
                 inputs.push((a.clone(), true));
                 let mut sub = Vec::new();
-                ops_model.push(format!("D:{}:{}", hex(a.as_bytes()), encode_entries(Path::new(&a), false, 2, &mut sub)));
+                ops_model.push(format!("D:{}:{}", hex(pass_dir(d).as_bytes()), encode_entries(Path::new(&a), false, 2, &mut sub)));
                 inputs.extend(sub);
-                child_ops.push(format!("D {}", hex(pass(d).as_bytes())));
+                child_ops.push(format!("D {}", hex(pass_dir(d).as_bytes())));
                 alltext.push_str(&a);
             }
             SOp::A(p, u) => {
                 let a = abs(p);
                 inputs.push((a.clone(), false));
-                ops_model.push(format!("A:{}:{}", hex(a.as_bytes()), hex(u.as_bytes())));
+                ops_model.push(format!("A:{}:{}", hex(pass(p).as_bytes()), hex(u.as_bytes())));
                 child_ops.push(format!("A {} {}", hex(pass(p).as_bytes()), hex(u.as_bytes())));
                 alltext.push_str(&a);
                 alltext.push_str(u);
@@ -313,8 +330,8 @@ pub fn run_once(exe: &Path, root: &Path, outdir: &Path, script: &[SOp], k: usize
             SOp::S(d, to) => {
                 let a = abs(d);
                 inputs.push((a.clone(), true));
-                ops_model.push(format!("S:{}:{}:{}", hex(a.as_bytes()), hex(to.as_bytes()), encode_entries(Path::new(&a), true, 0, &mut inputs)));
-                child_ops.push(format!("S {} {}", hex(pass(d).as_bytes()), hex(to.as_bytes())));
+                ops_model.push(format!("S:{}:{}:{}", hex(pass_dir(d).as_bytes()), hex(to.as_bytes()), encode_entries(Path::new(&a), true, 0, &mut inputs)));
+                child_ops.push(format!("S {} {}", hex(pass_dir(d).as_bytes()), hex(to.as_bytes())));
                 alltext.push_str(&a);
                 alltext.push_str(to);
             }
@@ -327,7 +344,7 @@ pub fn run_once(exe: &Path, root: &Path, outdir: &Path, script: &[SOp], k: usize
             }
             SOp::B(p, data) => {
                 let a = abs(p);
-                ops_model.push(format!("B:{}:{}", hex(a.as_bytes()), hex(data)));
+                ops_model.push(format!("B:{}:{}", hex(pass(p).as_bytes()), hex(data)));
                 child_ops.push(format!("B {} {}", hex(pass(p).as_bytes()), hex(data)));
                 alltext.push_str(&a);
             }
@@ -371,13 +388,14 @@ pub fn run_once(exe: &Path, root: &Path, outdir: &Path, script: &[SOp], k: usize
         alltext.push_str(&String::from_utf8_lossy(c));
     }
     let req = format!(
-        "script {} {} {} {} {} {}",
+        "script {} {} {} {} {} {} {}",
         feature_name(),
         hex(outdir.display().to_string().as_bytes()),
         uni_esc_set(alltext.as_bytes()),
         uni_alnum_set(&alltext),
         fs_s,
-        ops_s
+        ops_s,
+        hex(indir.display().to_string().as_bytes())
     );
     let answer = format!(
         "stdout={}|files={}|writes={}|names={}",
@@ -901,9 +919,10 @@ pub fn scenarios(args: &crate::Args) -> Vec<Scenario> {
 /// lexical normalisation (`a/b/../c` = `a/c`): cargo stats the path, so both spellings name one file
 pub fn lexical(path: &str) -> String {
     let mut out: Vec<&str> = Vec::new();
-    for c in path.split('/') {
+    for (ci, c) in path.split('/').enumerate() {
         match c {
             "." => {}
+            "" if ci > 0 => {} // `a//b`, `a/b/`
             ".." if out.last().map_or(false, |l| !l.is_empty() && *l != "..") => {
                 out.pop();
             }
@@ -971,7 +990,8 @@ pub fn run(args: &crate::Args) {
         for st in &sc.steps {
             match st {
                 Step::Run => {
-                    let res = run_once(&exe, &root, &outdir, &sc.script, k);
+                    let spell = if sc.twin != 0 { sc.twin } else { si };
+                    let res = run_once(&exe, &root, &outdir, &sc.script, k, spell);
                     k += 1;
                     stats.hit("runs");
                     writeln!(req, "{}", res.req).unwrap();
@@ -991,7 +1011,7 @@ pub fn run(args: &crate::Args) {
                     let _ = std::fs::remove_dir_all(&clean_root);
                     std::fs::create_dir_all(clean_root.join("out")).unwrap();
                     // same inputs (same absolute paths): only OUT_DIR differs
-                    let clean = run_once(&exe, &root, &clean_root.join("out"), &sc.script, 1000 + k);
+                    let clean = run_once(&exe, &root, &clean_root.join("out"), &sc.script, 1000 + k, spell);
                     stats.hit("clean.compared");
                     for (p, c) in &clean.after {
                         let q = p.replacen(&clean_root.join("out").display().to_string(), &outdir.display().to_string(), 1);
